@@ -175,7 +175,7 @@ LEVEL_TEXT = {
         "Tie: synthesised images with an independent slice oracle.",
  "C07": "Theorems: every image the model's build produces is well-formed (build_wf, for every tree) and in every well-formed image each file's extent holds exactly the file's bytes followed by zeros to the sector end (any size), reading the extent returns them, files up to 4 GiB-1 get one record with the exact size, larger files get contiguous 0xFFFFF800-byte extents flagged multi-extent plus an unflagged remainder whose lengths sum to the size, portable names are preserved (upper-cased in the primary hierarchy); every extent length fits the 32-bit record field; the scan is complete (scan_complete / layout_tree_complete): every directory reachable from the root is a directory of the image, every directory of the image records exactly its file entries in enumeration order and has all its sub-directories in the image - nothing left out, nothing invented; file_reachable_through_image: every non-empty single-extent file has, in its directory's records, a record with its mapped identifier and exact size whose location, read through the image, yields exactly the file's bytes. "
         "Tie: byte-exact differential against the Lean image + independent ISO reader comparing both hierarchies with the source tree.",
- "C08": "Theorems: size = volume space size x 2048, pad rule (granule 0x20), both-endian agreement for every value, record length byte = encoded size <= 255 because identifiers are cut to fit, no record straddles a sector (gap rule), directory extents are whole sectors, L/M path table entries agree, descriptor headers (1/2/255, CD001, version 1), PS3 sector 0/1 contents; links: every '.' record names its own directory's extent, '..' the parent's, a parent's record for a child carries exactly the location and length of that child's own '.' record, path table entries point at the directories' extents, directories lie back to back; for every built image all file extents lie behind the metadata and before the pad area and are pairwise disjoint; ROUND TRIP (records_roundtrip): an ISO 9660 reader's walk over a directory extent (Spec/IsoDir: length byte, zero byte = skip to the next sector) returns exactly the list of records the generator wrote, for every list of records whose fields fit (decode . encode = id, by induction with the sector-gap rule), hence every directory extent of a generated image below 8 TiB reads back as the records the layout computed; the same round trip for L and M path tables (path_table_roundtrip); directory_reads_back: for every tree, mode and hierarchy, cutting the extent that the records name for directory k out of the generated image and walking it as a reader does yields exactly the records the layout computed for it (position of every directory inside the metadata area + round trip). "
+ "C08": "Theorems: size = volume space size x 2048, pad rule (granule 0x20), both-endian agreement for every value, record length byte = encoded size <= 255 because identifiers are cut to fit, no record straddles a sector (gap rule), directory extents are whole sectors, L/M path table entries agree, descriptor headers (1/2/255, CD001, version 1), PS3 sector 0/1 contents; links: every '.' record names its own directory's extent, '..' the parent's, a parent's record for a child carries exactly the location and length of that child's own '.' record, path table entries point at the directories' extents, directories lie back to back; for every built image all file extents lie behind the metadata and before the pad area and are pairwise disjoint; ROUND TRIP (records_roundtrip): an ISO 9660 reader's walk over a directory extent (Spec/IsoDir: length byte, zero byte = skip to the next sector) returns exactly the list of records the generator wrote, for every list of records whose fields fit (decode . encode = id, by induction with the sector-gap rule), hence every directory extent of a generated image below 8 TiB reads back as the records the layout computed; the same round trip for L and M path tables (path_table_roundtrip); directory_reads_back: for every tree, mode and hierarchy, cutting the extent that the records name for directory k out of the generated image and walking it as a reader does yields exactly the records the layout computed for it (position of every directory inside the metadata area + round trip); descriptors_point_to_root: bytes 156..189 of the primary and the supplementary descriptor are the root directory's own . record, naming the sector where that directory is. "
         "Tie: byte-exact model image + strict independent validator on the implementation's bytes.",
  "C09": "Theorems (no bound on sizes): build_wf - for every world, root and mode the built image is well-formed (metadata exactly as long as the layout arithmetic assumed, files in consecutive runs, pad area); for every well-formed image, every offset and every length, read = slice of the one canonical byte string (metadata ++ padded files ++ pad area); corollaries: progress min(n, size-off), EOF after the end, any Read/Seek/ReadAt sequence observes the same as on the canonical string, sequential chunked reads concatenate, Seek arithmetic. "
         "Tie: op sequences at structural boundaries against the library view; the executable WF check is still evaluated per explored image as a cross-check.",
